@@ -48,6 +48,11 @@ def family(tier):
     out.append(("m-two-comp", models.spec([("x", n("1.0")), ("y", n("2.0"))], [("p", n("0.5")), ("q", n("1.5"))],
                                           [("a", L.bin_("*", v("p"), v("x"))), ("dx_dt", L.bin_("-", v("a"), v("x"))), ("b", L.bin_("+", v("a"), v("q"))), ("dy_dt", L.bin_("*", v("b"), v("y")))],
                                           comp={"x": "A", "p": "A", "a": "A", "dx_dt": "A", "y": "B", "q": "B", "b": "B", "dy_dt": "B"})))
+    # names that collide under common normalisations (case, underscores): ties in any derived sort key fall back to set order
+    out.append(("m-twin-names", dict(models.degenerate_specs())["deg|names-by-case"]))
+    out.append(("m-twin-names-2", models.spec([("v", n("1.0")), ("V", n("2.0")), ("v_", n("0.5"))], [("Cm", n("1.0")), ("cm", n("2")), ("c_m", n("3"))],
+                                             [("i_K", L.bin_("*", v("Cm"), v("v"))), ("I_K", L.bin_("*", v("cm"), v("V"))), ("iK", L.bin_("*", v("c_m"), v("v_"))),
+                                              ("dv_dt", L.bin_("-", v("I_K"), v("i_K"))), ("dV_dt", L.bin_("+", v("iK"), v("i_K"))), ("dv__dt", L.bin_("*", v("I_K"), v("iK")))])))
     shapes = models.e3_shapes("quick")
     sel = [(k, s) for k, s in models.e3_specs("quick", variants=True)
            if len(shapes[int(k.split("|")[1])][0]) <= 2 and ("|n0|" in k or tier != "quick")]
